@@ -116,6 +116,7 @@ class Evaluator:
         self.fork = False                   # path-forking mode (decision extraction)
         self._oracle = []
         self._taken = []
+        self.index_events = []              # (line, base term, index term, decisions so far) for symbolic indexing
         for c in facts.crates.values():
             for p, a in c.adts.items():
                 if a["kind"] == "enum":
@@ -152,6 +153,7 @@ class Evaluator:
                 self._taken = []
                 self.steps = 0
                 self.trace = []
+                self.index_events = []
                 try:
                     res = self._call(fn, list(args))
                 except Panic as pn:
@@ -164,6 +166,7 @@ class Evaluator:
                         if a != choice:
                             pending.append([(c, ch) for c, ch, _ in taken[:i]] + [(cond, a)])
                 out.append(([(c, ch) for c, ch, _ in taken], res, list(self.trace)))
+                self.all_index_events = getattr(self, "all_index_events", []) + list(self.index_events)
                 if len(out) > max_paths:
                     raise Budget()
         finally:
@@ -462,6 +465,9 @@ class Evaluator:
             return T(())
         if self.fork:
             condterm = self._safe(c, dict(env))
+            l = n.get("l")
+            if isinstance(l, list) and any(str(m).startswith("debug_assert") for m in l[1]):
+                condterm = Sym("debug_assertion", (condterm,))
             if self._decide(condterm, [True, False]):
                 return self._in_scope(n["then"], env, e2)
             if n.get("else") is not None:
@@ -850,6 +856,11 @@ class Evaluator:
             if 0 <= b < len(a.items):
                 return a.items[b]
             raise Panic("index out of bounds", line_of(n))
+        an = n["a"]
+        while an.get("k") in ("addr", "un"):
+            an = an["e"] if an["k"] == "addr" else an["a"]
+        bname = an["res"].get("local") if an.get("k") == "path" else an.get("name") if an.get("k") == "field" else None
+        self.index_events.append((line_of(n), a, b, [(c, ch) for c, ch, _ in self._taken], bname))
         return Sym("index", (a, b))
 
     def ev_loop(self, n, env):
